@@ -4,6 +4,7 @@ import UpfVerif.Spec.Arrange
 import UpfVerif.Lemmas.Xlate
 import UpfVerif.Lemmas.Arrange
 import UpfVerif.Model.Perio
+import UpfVerif.Model.Core
 /-
 C03 — QER, URR and BAR reach the kernel exactly as the SMF specified them.
 
@@ -530,6 +531,34 @@ theorem create_again_keeps_registration (st : Perio.St) (s u p : Nat) :
     · simp [Perio.step, hc]
     · simp [Perio.step, hc, addG_idem]
   exact ⟨h, fun q => by rw [h]⟩
+
+/-! ### the session layer above the driver hands every Update on
+
+`Sess.UpdateQER / UpdateFAR / UpdateBAR` (model `Sess.updateSimple`): when the session has the rule, the IE is handed to the
+data plane — one call, under the session's SEID, with the rule id — and nothing the session remembers of earlier updates
+enters: the outcome is a function of the session's rule ids and the IE alone, so the same Update twice gives two calls, and
+an Update after remove / re-create of the id gives a call again. -/
+
+theorem update_reaches_data_plane (s : Core.Sess) (k : Core.Kind) (id : Nat) (c : Core.Ctx) (h : id ∈ s.ids k) :
+    ∃ a, (s.updateSimple k { id := some id } c).2.outs =
+      c.outs ++ [Core.Out.dp { seid := s.localID, op := .update, kind := k, id := id } a] ∧
+    (s.updateSimple k { id := some id } c).1 = s := by
+  unfold Core.Sess.updateSimple
+  simp only [h, if_true]
+  unfold Core.Ctx.call
+  cases c.pending with
+  | nil => exact ⟨_, rfl, by first | rfl | trivial⟩
+  | cons p rest => exact ⟨_, rfl, by first | rfl | trivial⟩
+
+/-- the same Update IE twice in a row: two data-plane calls (no suppression of "redundant" updates) -/
+theorem update_twice_two_calls (s : Core.Sess) (k : Core.Kind) (id : Nat) (c : Core.Ctx) (h : id ∈ s.ids k) :
+    ∃ a b, ((s.updateSimple k { id := some id } c).1.updateSimple k { id := some id } (s.updateSimple k { id := some id } c).2).2.outs =
+      c.outs ++ [Core.Out.dp { seid := s.localID, op := .update, kind := k, id := id } a,
+                 Core.Out.dp { seid := s.localID, op := .update, kind := k, id := id } b] := by
+  obtain ⟨a, h1, hs⟩ := update_reaches_data_plane s k id c h
+  rw [hs]
+  obtain ⟨b, h2, _⟩ := update_reaches_data_plane s k id (s.updateSimple k { id := some id } c).2 h
+  exact ⟨a, b, by rw [h2, h1, List.append_assoc]; rfl⟩
 
 end UpfVerif.C03
 
